@@ -117,7 +117,26 @@ struct Functor {
 static void scenario_thread(int tkind, int bkind, int arg, int members)
 {
 	Board b;
-	switch (tkind % 9) {
+	switch (tkind % 10) {
+	case 9: { // a started Thread is copied, joined through the copy (as parallel_invoke and ThreadGroup do with their members);
+		  // another thread is started before the original object goes away, and must still be joined properly
+		SubThread* u = 0;
+		{
+			SubThread t(&b, 0, bkind, arg);
+			t.start();
+			Array<Thread> copies;
+			copies << t;
+			copies[0].join();
+			check_task(b, 0, bkind);
+			u = new SubThread(&b, 1, 3, 1200 + arg % 300); // sleeps ~1.2-1.5 ms, then stores
+			u->start();
+		} // original (and the array copy) destroyed here while u runs
+		u->join();
+		check_task(b, 1, 3);
+		VF_CHECK(u->finished(), "subclassed Thread started while a joined thread's objects were being destroyed: finished() is false after join()");
+		delete u;
+		break;
+	}
 	case 7: { // the same subclassed Thread object started and joined again: every round runs the body once more
 		SubThread t(&b, 0, bkind, arg);
 		int rounds = 2 + (members % 2 + 2) % 2;
@@ -559,7 +578,7 @@ void vf_search(const vf::Args& a)
 	}();
 	// (3) generated thread scenarios under jitter
 	[&]() {
-		auto g = gen::map(gen::tuple(vf::irange<int>(0, 8), gen::weightedElement<int>({{4, 0}, {2, 1}, {2, 2}, {1, 3}}), vf::irange<int>(0, 20000), vf::irange<int>(0, 7), vf::irange<int>(1, 1000000)),
+		auto g = gen::map(gen::tuple(vf::irange<int>(0, 9), gen::weightedElement<int>({{4, 0}, {2, 1}, {2, 2}, {1, 3}}), vf::irange<int>(0, 20000), vf::irange<int>(0, 7), vf::irange<int>(1, 1000000)),
 		                  [=](const std::tuple<int, int, int, int, int>& t) {
 			                  vf::Case c;
 			                  int reps = std::get<1>(t) == 3 ? 3 : (a.quick() ? 20 : 100);
@@ -571,9 +590,9 @@ void vf_search(const vf::Args& a)
 			bool nontrivial = o.i(1) % 4 == 0 || (o.i(1) % 4 == 2 && o.i(2) < 200) || o.i(0) == 1 || o.i(0) == 2 || o.i(0) >= 4; // (kinds 7, 8: restarted thread / group)
 			if (nontrivial)
 				vf::stats().nt(vf::fnv(vf::serialize(c)));
-			static const char* tk[] = {"subclass", "lambda", "functor", "group", "invoke2", "invoke3", "invoke4", "subclass_restarted", "group_restarted"};
+			static const char* tk[] = {"subclass", "lambda", "functor", "group", "invoke2", "invoke3", "invoke4", "subclass_restarted", "group_restarted", "copied_then_joined_via_copy"};
 			static const char* bk[] = {"empty", "stores", "spin", "sleep"};
-			vf::stats().cls(vf::str("thread.", tk[o.i(0) % 9]));
+			vf::stats().cls(vf::str("thread.", tk[o.i(0) % 10]));
 			vf::stats().cls(vf::str("body.", bk[o.i(1) % 4]));
 			vf::stats().cls("thread.jittered_repetitions", o.i(4));
 			if (o.i(0) == 1 && o.i(1) == 0)
